@@ -454,12 +454,27 @@ func (s *segment) close() error {
 
 // Cleaned creates a cleaned segment for this segment.
 func (s *segment) Cleaned() (*segment, error) {
-	return newSegment(s.path, s.BaseOffset, s.maxBytes, false, cleanedSuffix)
+	return s.newSuffixed(cleanedSuffix)
 }
 
 // Truncated creates a truncated segment for this segment.
 func (s *segment) Truncated() (*segment, error) {
-	return newSegment(s.path, s.BaseOffset, s.maxBytes, false, truncatedSuffix)
+	return s.newSuffixed(truncatedSuffix)
+}
+
+// newSuffixed creates an empty segment with the same base offset and the given
+// suffix. Files with that name can be left over from a clean or truncate that
+// was interrupted by a crash (they are ignored when the log is opened), so
+// remove them first. Otherwise the segment would be opened in append mode on
+// top of the old contents and the messages copied into it would be duplicated.
+func (s *segment) newSuffixed(suffix string) (*segment, error) {
+	stale := &segment{path: s.path, BaseOffset: s.BaseOffset, suffix: suffix}
+	for _, file := range []string{stale.logPath(), stale.indexPath()} {
+		if err := os.Remove(file); err != nil && !os.IsNotExist(err) {
+			return nil, errors.Wrap(err, "failed to remove stale segment file")
+		}
+	}
+	return newSegment(s.path, s.BaseOffset, s.maxBytes, false, suffix)
 }
 
 // Replace replaces the given segment with the callee.
